@@ -9,6 +9,7 @@ import (
 	"cosmossdk.io/math"
 	sdk "github.com/cosmos/cosmos-sdk/types"
 	banktypes "github.com/cosmos/cosmos-sdk/x/bank/types"
+	"github.com/cosmos/cosmos-sdk/x/group"
 
 	"verifharness/fw"
 	"verifharness/lab"
@@ -35,7 +36,7 @@ func init() {
 		},
 		Run:  runC06,
 		Need: []string{"checktx", "admitted_executed"},
-		Assumptions: []string{"nesting through x/authz MsgExec only (x/group Exec_TRY is not generated)", "single-signer transactions"},
+		Assumptions: []string{"nesting through x/authz MsgExec (depth 1-3) and x/group proposals executed with Exec_TRY", "single-signer transactions"},
 	})
 }
 
@@ -126,6 +127,21 @@ func runC06(c *fw.Ctx) {
 		e.Deliver(g.plan(ow, sdk.NewCoins(sdk.NewCoin(bd, math.NewIntFromUint64(o.Beacon.FeeRegister))), g.BeaconRegisterMsg(ow)))
 	}
 	e.EndBlock()
+
+	// a group (sole member a3, threshold 1) whose policy account (32 byte address) owns registrations
+	var policy sdk.AccAddress
+	{
+		pol := group.NewThresholdDecisionPolicy("1", 5*time.Second, 0)
+		m, err := group.NewMsgCreateGroupWithPolicy(ac[3].Addr.String(), []group.MemberRequest{{Address: ac[3].Addr.String(), Weight: "1"}}, "", "", false, pol)
+		if err == nil {
+			e.Block(time.Second, &TxPlan{Spec: lab.TxSpec{Msgs: []sdk.Msg{m}, Signers: []lab.Acct{ac[3]}, Gas: 1_000_000}, Desc: "CreateGroupWithPolicy"})
+			res, qerr := L.App.GroupKeeper.GroupPoliciesByAdmin(sdk.WrapSDKContext(L.Ctx()), &group.QueryGroupPoliciesByAdminRequest{Admin: ac[3].Addr.String()})
+			if qerr == nil && len(res.GroupPolicies) > 0 {
+				policy, _ = sdk.AccAddressFromBech32(res.GroupPolicies[0].Address)
+				e.Block(time.Second, g.plan(ac[3], nil, banktypes.NewMsgSend(ac[3].Addr, policy, sdk.NewCoins(sdk.NewInt64Coin(lab.Denom, 50_000_000), sdk.NewInt64Coin(lab.Denom2, 50_000_000)))))
+			}
+		}
+	}
 
 	ntx := r.Range(60, 90)
 	for t := 0; t < ntx && e.Halted == ""; t++ {
@@ -224,6 +240,25 @@ func runC06(c *fw.Ctx) {
 				setOwnerExact(txMsgs[0], grantee)
 			}
 			signer, nesting = grantee, "top+exec"
+		}
+		if policy != nil && r.Chance(8) {
+			// operations owned by the group policy account, executed through a proposal with Exec_TRY
+			pacct := lab.Acct{Addr: policy}
+			var gm []sdk.Msg
+			if r.Bool() {
+				gm = append(gm, g.WrkRegisterMsg(pacct))
+			} else {
+				gm = append(gm, g.BeaconRegisterMsg(pacct))
+			}
+			for _, m := range gm {
+				setOwnerExact(m, pacct)
+			}
+			sp, err := group.NewMsgSubmitProposal(policy.String(), []string{ac[3].Addr.String()}, gm, "", group.Exec_EXEC_TRY, "t", "s")
+			if err == nil {
+				txMsgs = []sdk.Msg{sp}
+				signer, nesting = ac[3], "group-exec-try"
+				shape = []string{"group:" + msgName(gm[0])}
+			}
 		}
 		leaves, nestedFlags := Flatten(txMsgs)
 		want, nW, nB := fo.expected(leaves)
@@ -339,6 +374,8 @@ func runC06(c *fw.Ctx) {
 		topOK := (tW == 0 || offered.AmountOf(wd).Equal(topW.AmountOf(wd))) && (tB == 0 || offered.AmountOf(bd).Equal(topB.AmountOf(bd)))
 		sig := "top-level-op-mispriced"
 		switch {
+		case anyNested && topOK && nesting == "group-exec-try":
+			sig = "group-proposal-ops-unpriced"
 		case anyNested && topOK:
 			sig = "nested-ops-unpriced"
 		case !anyNested && tW > 0 && tB > 0 && wd == bd && topOK:
